@@ -162,6 +162,14 @@ SEEDS = {
               ['./store/...'], ['-run', 'TestC05', './store/', './store/cache/']),
     "C05-6": ("C05/r3change2", "C05", [('demo/zz_c05_empty_block_link_test.go', 'store/zz_c05_empty_block_link_test.go')],
               ['./store/...'], ['-run', 'TestC05EmptyBlock', './store/']),
+    "C20-5": ("C20/r3change1", "C20", [('demo/seed_c20_overflow_failing_retrieval_test.go', 'blob/seed_c20_overflow_failing_retrieval_test.go')],
+              ['./blob/...'], ['-run', 'TestSeedC20_StalledReaderIsDroppedWhileRetrievalFails', './blob/']),
+    "C20-6": ("C20/r3change2", "C20", [('demo/seed_c20_cancel_inflight_retrieval_test.go', 'blob/seed_c20_cancel_inflight_retrieval_test.go')],
+              ['./blob/...'], ['-run', 'TestSeedC20_CancelEndsStreamDuringInflightRetrieval', './blob/']),
+    "C03-5": ("C03/r3change1", "C03", [('demo/light/reconfig_restart_demo_test.go', 'share/availability/light/reconfig_restart_demo_test.go')],
+              ['./share/availability/...'], ['-run', 'TestDemoC03Change1', './share/availability/light/']),
+    "C02-5": ("C02/r3change1", "C02", [('demo/namespace_data_extra_rows_demo_test.go', 'share/shwap/namespace_data_extra_rows_demo_test.go')],
+              ['./share/shwap/', './share/eds/'], ['-run', 'TestDemoNamespaceDataRejectsExtraRows', './share/shwap/']),
     "C06-1": ("C06/change1", "C06", [("demo/sample_unverified_demo_test.go", "share/shwap/p2p/bitswap/sample_unverified_demo_test.go")],
               ["./share/shwap/p2p/bitswap/"], ["-run", "TestDemo_GetSamples", "./share/shwap/p2p/bitswap/"]),
     "C06-2": ("C06/change2", "C06", [("demo/eds_retry_demo_test.go", "share/shwap/p2p/shrex/shrex_getter/eds_retry_demo_test.go")],
